@@ -624,6 +624,39 @@ impl ReadTransaction {
     }
 }
 
+/// Verification hook (compiled only with `--cfg nomt_verif`): a read transaction over a hand-built
+/// index and staging maps. The leaf store is an empty scratch file and the leaf cache is empty:
+/// only `iterator` may be used, the leaves are supplied by the caller.
+#[cfg(nomt_verif)]
+impl ReadTransaction {
+    pub(crate) fn verif_in_memory(
+        bbn_index: Index,
+        primary_staging: OrdMap<Key, ValueChange>,
+        secondary_staging: Option<OrdMap<Key, ValueChange>>,
+        page_pool: crate::io::PagePool,
+    ) -> std::io::Result<Self> {
+        let file = Arc::new(std::fs::File::open("/dev/null")?);
+        let store = allocator::Store::verif_with_free_list(file, PageNumber(1), vec![])?;
+        let read_counter = ReadTransactionCounter::new();
+        read_counter.add_one();
+        Ok(ReadTransaction {
+            inner: Arc::new(ReadTransactionInner {
+                bbn_index,
+                primary_staging,
+                secondary_staging,
+                leaf_store: StoreReader::new(store, page_pool),
+                leaf_cache: LeafCache::new(1, 1),
+                read_counter,
+            }),
+        })
+    }
+
+    /// A leaf handle for a hand-built leaf.
+    pub(crate) fn verif_leaf_ref(leaf: Arc<leaf::node::LeafNode>) -> LeafNodeRef {
+        LeafNodeRef { inner: leaf }
+    }
+}
+
 impl Drop for ReadTransactionInner {
     fn drop(&mut self) {
         self.read_counter.release_one()
